@@ -53,13 +53,18 @@ impl Net {
     fn wake_send(&mut self, at: usize, to: usize) { if let Some(w) = self.send_w[at][to].take() { w.wake(); } }
 }
 
+thread_local! { static SLOW_SENDS: std::cell::Cell<bool> = const { std::cell::Cell::new(false) }; }
+/// every send takes (at least) two polls: between them the sibling futures of a `join` run, so that two sends a party has issued CONCURRENTLY to one peer are
+/// both outstanding (and counted); sends issued one after the other are unaffected. A transport may complete concurrent sends in either order.
+pub fn set_slow_sends(on: bool) { SLOW_SENDS.with(|s| s.set(on)); }
 struct SendFut<'a> { c: &'a Ch, to: usize, data: Option<Vec<u8>>, registered: bool }
 impl Future for SendFut<'_> {
     type Output = Result<(), Closed>;
     fn poll(mut self: Pin<&mut Self>, cx: &mut Context<'_>) -> Poll<Self::Output> {
         let (me, to) = (self.c.me, self.to);
         let mut n = self.c.net.borrow_mut();
-        if !self.registered { self.registered = true; let e = n.outstanding_send.entry((me, to)).or_insert(0); *e += 1; let v = *e; n.max_outstanding = n.max_outstanding.max(v); }
+        if !self.registered { self.registered = true; let e = n.outstanding_send.entry((me, to)).or_insert(0); *e += 1; let v = *e; n.max_outstanding = n.max_outstanding.max(v);
+            if SLOW_SENDS.with(|s| s.get()) { cx.waker().wake_by_ref(); return Poll::Pending; } }
         if to >= n.q.len() { *n.outstanding_send.get_mut(&(me, to)).unwrap() -= 1; return Poll::Ready(Err(Closed)); }
         if n.closed[to] { *n.outstanding_send.get_mut(&(me, to)).unwrap() -= 1; return Poll::Ready(Ok(())); }
         if n.q[me][to].len() < n.cap {
